@@ -143,12 +143,14 @@ func c07Inputs(rng *Rng, cfg *configuration.Configuration, tier string) ([]byte,
 		open := []byte{0x9a, 0x99, 0x97, 0x96}[rng.Intn(4)]
 		return append([]byte{0x81, 0}, bytes.Repeat([]byte{open}, n)...), fmt.Sprintf("cbe-nested-%d", n)
 	case 12:
-		depths := []int{10, 999, 1001, 5000, 20000, 100000}
-		if tier == "thorough" {
-			depths = append(depths, 1000000, 3000000)
-		}
+		// every depth is cheap on a tree that stops at the configured limit before parsing; 3 000 000
+		// levels exhaust the goroutine stack of a parser that does not
+		depths := []int{10, 999, 1001, 5000, 20000, 100000, 3000000, 3000000}
 		n := depths[rng.Intn(len(depths))]
-		open := []string{"[", "(", "@(", "{1=", "&a:["}[rng.Intn(5)]
+		open := []string{"[", "(", "@(", "{1=", "&a:[", "@a{", "@a<", "@a{[", "{\"k\"=@a{", "[@u8x[] ", "&m:&n:", "[/**/"}[rng.Intn(12)]
+		if (open == "&m:&n:" || open == "@(") && n > 5000 {
+			n = 5000
+		}
 		return []byte("c0 " + strings.Repeat(open, n)), fmt.Sprintf("cte-nested-%d", n)
 	default:
 		// many tiny tokens
